@@ -46,6 +46,7 @@ class Cfg:
     min_plain_cols: int = 1
     force_str_first_plain: bool = False
     text_lines: int = 3
+    multi_grouping: bool = False          # sections of a multi-section document may use page_by / subline_by themselves
     rel_width_floats: bool = False        # col_rel_width drawn from [0.2, 10] instead of a small menu
     col_width_range: tuple | None = None  # page col_width drawn from this range (inches)
     group_by_p: int = 3                   # out of 10
@@ -318,7 +319,7 @@ def table_section(draw, cfg: Cfg, sec_index=0, multi=False):
     body = {}
     page_by, subline_by, group_by = [], [], []
     strat = "plain"
-    if not multi:
+    if not multi or cfg.multi_grouping:
         choice = draw(st.integers(0, 9))
         if cfg.allow_page_by and budget > 0 and choice in (0, 1, 2, 3, 8):
             k = draw(st.integers(1, min(cfg.max_page_by, budget)))
